@@ -371,8 +371,8 @@ class Check:
 def coq_str(sv):
     """Render a Python str/bytes as a Coq [str] term."""
     b = sv.encode("latin-1") if isinstance(sv, str) else bytes(sv)
-    if all(32 <= c < 127 and c != 34 for c in b):
-        return '(s "%s")' % b.decode("latin-1")
+    if all(32 <= c < 127 for c in b):
+        return '(s "%s")' % b.decode("latin-1").replace('"', '""')
     return "[" + "; ".join("ascii_of_N %d" % c for c in b) + "]"
 
 
